@@ -419,6 +419,8 @@ class MirFile:
                 hits2 = [(p, h) for p, h in hits if tyname in h.split("(")[0]]
             if hits2:
                 hits = hits2
+            elif self.others:
+                hits = []               # none of the same-named functions here belongs to that type: look in the dependency crates
         if len(hits) == 0:
             for o in self.others:
                 try:
@@ -440,6 +442,9 @@ def impl_line_is(header, trait, ty):
         except Exception:
             continue
         if re.search(r"\bimpl\b.*\b" + re.escape(trait) + r"\b.*\bfor\s+" + re.escape(ty) + r"\b", line):
+            return True
+        base = ty.split("<")[0]
+        if base != ty and re.fullmatch(r"[\w:]+", base) and re.search(r"\bimpl\b.*\b" + re.escape(trait) + r"\b.*\bfor\s+" + re.escape(base) + r"\s*<", line):
             return True
     return False
 
@@ -848,7 +853,7 @@ class Interp:
             if m:
                 return self.promoted_const(p, int(m.group(1)))
             return self.constant(s[6:])
-        if re.match(r"^[\w:<>', ]+$", s) and "::" in s:
+        if re.match(r"^[\w:<>', ]+$", s) and ("::" in s or re.match(r"^[A-Za-z]\w*$", s)):
             return Opaque("fn-item:" + s)          # function / constructor item passed as a value (e.g. to map_err)
         raise Unsupported("operand " + s)
 
@@ -1065,6 +1070,8 @@ class Interp:
         if m:
             fields = split_top(m.group(2))
             return Tup([self.operand(p, f.split(": ", 1)[1]) for f in fields], m.group(1))
+        if re.match(r"^(?:\w+::)*[A-Z]\w*$", s):
+            return Tup([], s)                       # unit struct
         hook = self.models.get("__rvalue__")
         if hook:
             r = hook(self, p, s)
@@ -1082,7 +1089,7 @@ class Interp:
         path, vname, targs, fargs = m.group(1), m.group(2), m.group(3), m.group(4)
         ename = None
         if path:
-            segs = [re.sub(r"<.*", "", x) for x in path.rstrip(":").split("::") if x]
+            segs = [y for y in (re.sub(r"<.*", "", x) for x in path.rstrip(":").split("::") if x) if y]
             ename = segs[-1] if segs else None
         elif dest_ty:
             ename = re.sub(r"<.*", "", dest_ty.split("::")[-1]).strip()
